@@ -60,7 +60,8 @@ class C12(Check):
     STUB = ['peer mode: scripted SECoP server', 'TCP (sim.net)', 'hardware (fake driver)', 'clock']
     ASSUMPTIONS = ['values are compared in wire form by the harness\' own conversion (floats within resolution)',
                    'a registration is ordered against the message stream by a sync marker the peer sends']
-    PROBES = ('c12.peer-mode', 'c12.e2e-mode', 'c12.proxy-mode', 'c12.driver-update', 'c12.mirror-compared', 'c12.malformed', 'c12.future-timestamp',
+    PROBES = ('c12.peer-mode', 'c12.e2e-mode', 'c12.proxy-mode', 'c12.driver-update', 'c12.mirror-compared',
+              'c12.concurrent-writes', 'c12.malformed', 'c12.future-timestamp',
               'c12.shorthand', 'c12.raising-callback', 'c12.oneshot-callback', 'c12.proxy-drop')
 
     def gen_case(self, rng, tier):
@@ -124,6 +125,12 @@ class C12(Check):
                         ops.append({'op': 'set', 'm': s['name'], 'p': p['name'], 'v': dtgen.valid_wire(rng, p['di']),
                                     'ret': rng.choice(['same', 'other']),
                                     'v2': dtgen.valid_wire(rng, p['di'])})
+                elif r < 0.62 and [p for p in s['params'] if not p['readonly'] and p.get('write')]:
+                    # two threads write different values to the same parameter through the one client while the
+                    # hardware is slow: both must reach the driver, each caller gets its own result
+                    p = rng.choice([p for p in s['params'] if not p['readonly'] and p.get('write')])
+                    ops.append({'op': 'pairset', 'm': s['name'], 'p': p['name'], 'v': dtgen.valid_wire(rng, p['di']),
+                                'v2': dtgen.valid_wire(rng, p['di']), 'dur': rng.choice([0.01, 0.1, 0.5])})
                 elif r < 0.8 or not s['cmds']:
                     p = rng.choice(s['params'])
                     ops.append({'op': 'get', 'm': s['name'], 'p': p['name'], 'v': dtgen.valid_wire(rng, p['di'])})
@@ -349,6 +356,24 @@ class C12(Check):
                         drv.override[op['m'], 'write_' + op['p']] = dtgen.to_internal(di, op['v2'])
                     item = cl.setParameter(op['m'], op['p'], dtgen.to_internal(di, op['v']))
                     rec['cache'] = self._item(di, item)
+                elif op['op'] == 'pairset':
+                    di = di_of[op['m'], op['p']]
+                    sim.count('c12.concurrent-writes')
+                    drv.scripts[f'{op["m"]}.write_{op["p"]}'] = [[op['dur'], 'ok']]
+                    out = rec['pair'] = [None, None]
+
+                    def one(i, v):
+                        try:
+                            out[i] = self._item(di, cl.setParameter(op['m'], op['p'], dtgen.to_internal(di, v)))
+                        except Exception as e:   # noqa
+                            out[i] = ['exc', type(e).__name__, str(e)[:200]]
+                    ths = [threading.Thread(target=one, args=(i, v), name=f'writer{i}')
+                           for i, v in enumerate((op['v'], op['v2']))]
+                    for t in ths:
+                        t.start()
+                    for t in ths:
+                        t.join()
+                    drv.scripts.pop(f'{op["m"]}.write_{op["p"]}', None)
                 elif op['op'] == 'get':
                     di = di_of[op['m'], op['p']]
                     drv.override[op['m'], 'read_' + op['p']] = dtgen.to_internal(di, op['v'])
@@ -612,6 +637,27 @@ class C12(Check):
                     res.append(Violation('C12.readback-mismatch', f'{tag}|{di["type"]}',
                                          f'setParameter({op["m"]}, {op["p"]}, {op["v"]!r}): driver returned {back!r}, '
                                          f'client cache holds {rec["cache"]!r} (datainfo {di})'))
+            elif op['op'] == 'pairset':
+                p = di_of[op['m'], op['p']]
+                di = p['di']
+                writes = [c for c in rec['calls'] if c['kind'] == 'write' and c['name'] == op['p'] and c['mod'] == op['m']]
+                want = [op['v'], op['v2']]
+                got = [w['arg'] for w in writes]
+                ok = len(got) == 2 and ((dtgen.wire_equal(di, want[0], got[0]) and dtgen.wire_equal(di, want[1], got[1])) or
+                                        (dtgen.wire_equal(di, want[0], got[1]) and dtgen.wire_equal(di, want[1], got[0])))
+                if dropped and any(x and x[0] == 'exc' for x in rec['pair']):
+                    continue
+                if not ok:
+                    res.append(Violation('C12.value-changed-on-the-way', f'{tag}|concurrent-writes',
+                                         f'two threads wrote {want} to {op["m"]}:{op["p"]} at the same time, the driver '
+                                         f'received {got}; results {rec["pair"]}'))
+                    continue
+                for v, r2 in zip(want, rec['pair']):
+                    if r2 is None or r2[0] != 'ok' or not dtgen.wire_equal(di, v, r2[1]):
+                        res.append(Violation('C12.readback-mismatch', f'{tag}|concurrent-writes|{di["type"]}',
+                                             f'setParameter({op["m"]}, {op["p"]}, {v!r}) in one of two concurrent writers '
+                                             f'returned {r2!r} (the driver returns what it is given)'))
+                        break
             elif op['op'] == 'get':
                 p = di_of[op['m'], op['p']]
                 di = p['di']
